@@ -1,31 +1,44 @@
 (** C17 — size_hint is a true bound on what will still be yielded *)
 From FB Require Import Base Syntax World SlotMap Fub Unbounded Ordered Adapters Step UnboundedProofs StepProofs Reach HintProofs.
 
-(** the adapters: with an honest upstream hint, lower <= (items upstream will still produce +
-    pulled-but-unyielded futures) <= upper, at every point (the hint is a function of the state) *)
+(** the adapters, in [usize] arithmetic ([wmaxN P] = 2^w - 1): with an honest upstream hint —
+    whatever its slack, values at the top of the word range included — lower <= (items upstream
+    will still produce + pulled-but-unyielded futures) <= upper, at every point (the hint is a
+    function of the state); the lower bound saturates, the upper bound is dropped rather than
+    wrapped when the sum does not fit *)
+From Coq Require Import NArith.
 Theorem C17_adapter_hint_brackets :
-  forall a : adapter,
-  fst (adapter_hint a) <= still_to_yield a
-  /\ match snd (adapter_hint a) with Some h => still_to_yield a <= h | None => True end.
+  forall (P : params) (a : adapter),
+  (match ad_up a with Some u => N.of_nat (up_remaining (ad_try a) u) <= wmaxN P | None => True end)%N ->
+  (fst (adapter_hint P a) <= N.of_nat (still_to_yield a))%N
+  /\ match snd (adapter_hint P a) with Some h => (N.of_nat (still_to_yield a) <= h)%N | None => True end.
 Proof. exact adapter_hint_brackets. Qed.
 Print Assumptions C17_adapter_hint_brackets.
 
+Theorem C17_adapter_hint_upper_never_wraps :
+  forall (P : params) (a : adapter) (u : upstream) (lo x h : N),
+  ad_up a = Some u -> up_hint (wmaxN P) (ad_try a) u = (lo, Some x) ->
+  snd (adapter_hint P a) = Some h -> h = (x + N.of_nat (q_len (ad_q a)))%N /\ (h <= wmaxN P)%N.
+Proof. exact adapter_hint_upper_is_exact_sum. Qed.
+Print Assumptions C17_adapter_hint_upper_never_wraps.
+
 Theorem C17_adapter_hint_exact_after_upstream_end :
-  forall a : adapter, ad_up a = None -> adapter_hint a = (q_len (ad_q a), Some (q_len (ad_q a))).
+  forall (P : params) (a : adapter),
+  ad_up a = None -> adapter_hint P a = (N.of_nat (q_len (ad_q a)), Some (N.of_nat (q_len (ad_q a)))).
 Proof. exact adapter_hint_exact_after_upstream_end. Qed.
 Print Assumptions C17_adapter_hint_exact_after_upstream_end.
 
 (** the collections report exactly what they hold (merges: (0, None)) *)
 Theorem C17_collection_hint_exact :
-  forall (k : coll) (o : obsrec),
-  observe k = Some o ->
+  forall (P : params) (k : coll) (o : obsrec),
+  observe P k = Some o ->
   match k with
-  | CFub f => ob_hint o = Some (fub_len f, Some (fub_len f))
-  | CFu u => ob_hint o = Some (rem u, Some (rem u))
-  | CFob q => ob_hint o = Some (fob_len q, Some (fob_len q))
-  | CFo q => ob_hint o = Some (fo_len q, Some (fo_len q))
-  | CMb _ | CMu _ => ob_hint o = Some (0, None)
-  | CAd a => ob_hint o = Some (adapter_hint a)
+  | CFub f => ob_hint o = Some (N.of_nat (fub_len f), Some (N.of_nat (fub_len f)))
+  | CFu u => ob_hint o = Some (N.of_nat (rem u), Some (N.of_nat (rem u)))
+  | CFob q => ob_hint o = Some (N.of_nat (fob_len q), Some (N.of_nat (fob_len q)))
+  | CFo q => ob_hint o = Some (N.of_nat (fo_len q), Some (N.of_nat (fo_len q)))
+  | CMb _ | CMu _ => ob_hint o = Some (0%N, None)
+  | CAd a => ob_hint o = Some (adapter_hint P a)
   | _ => True
   end.
 Proof. exact collection_hint_exact. Qed.
